@@ -102,6 +102,7 @@ type sessCfg struct {
 	Strict  bool   `json:"strict"`
 	AddPath bool   `json:"addpath"`
 	RRC     string `json:"rrc"` // "no" | "default" (cluster id = router id) | "explicit" (cluster id 7)
+	Other   bool   `json:"other"` // a session with a second peer (same VRF, same local AS) is established throughout
 }
 
 type sessOpen struct {
@@ -140,6 +141,7 @@ type sessState struct {
 	Exp    string     `json:"exp"`
 	Loc    []sessNLRI `json:"loc"`
 	AdjOut []string   `json:"adjout"`
+	ASN    bool       `json:"asn"`
 }
 
 // role numbers of RFC 9234 as used in the capability
@@ -149,6 +151,7 @@ var sessPfx = map[string]wire.NLRI{
 	"a":  {AFI: wire.AFIIPv4, Len: 16, Addr: []byte{10, 1}},
 	"b":  {AFI: wire.AFIIPv4, Len: 16, Addr: []byte{10, 2}},
 	"c6": {AFI: wire.AFIIPv6, Len: 48, Addr: []byte{0x20, 0x01, 0x0d, 0xb8, 0, 1}},
+	"l":  {AFI: wire.AFIIPv4, Len: 16, Addr: []byte{10, 3}},  // announced with the local AS in its AS_PATH
 	"o1": {AFI: wire.AFIIPv4, Len: 16, Addr: []byte{10, 50}}, // put into the Loc-RIB by another source
 	"o2": {AFI: wire.AFIIPv4, Len: 16, Addr: []byte{10, 51}},
 }
@@ -175,6 +178,7 @@ type session struct {
 	addpath bool
 	peerKey *bnet.IP
 	nsess   int
+	other   *vconn // connection of the second peer's session, if any
 }
 
 func newSession(cfg sessCfg) *session {
@@ -210,7 +214,45 @@ func newSession(cfg sessCfg) *session {
 	if err := s.srv.AddPeer(pc); err != nil {
 		panic("harness: AddPeer: " + err.Error())
 	}
+	if cfg.Other {
+		s.establishOther(af)
+	}
 	return s
+}
+
+// establishOther configures a second passive eBGP peer (10.0.0.202, AS 65002) in the same VRF and brings its session up.
+func (s *session) establishOther(af func() *server.AddressFamilyConfig) {
+	ip := net.IPv4(10, 0, 0, 202).To4()
+	pa, _ := bnet.IPFromBytes(ip)
+	key := pa.Dedup()
+	pc := server.PeerConfig{AdminEnabled: true, LocalAS: 65000, PeerAS: 65002, LocalAddress: bnet.IPv4FromOctets(10, 0, 0, 200).Ptr(),
+		PeerAddress: key, Passive: true, VRF: s.vrf, RouterID: 100, HoldTime: 90 * time.Second, KeepAlive: 30 * time.Second, IPv4: af(), IPv6: af()}
+	if err := s.srv.AddPeer(pc); err != nil {
+		panic("harness: AddPeer (second peer): " + err.Error())
+	}
+	vc := newVconn(net.IPv4(10, 0, 0, 200).To4(), ip)
+	s.lm.ch <- tcp.ConnWithVRF{Conn: vc, VRF: s.vrf}
+	state := func() string {
+		f := server.VerifPeerFSMs(s.srv, s.vrf, key)
+		if len(f) == 0 {
+			return ""
+		}
+		return f[len(f)-1].State
+	}
+	wait := func(st string) {
+		for t := time.Now(); time.Since(t) < 5*time.Second; time.Sleep(time.Millisecond) {
+			if state() == st {
+				return
+			}
+		}
+		panic("harness: the second peer's session does not reach " + st + " (is " + state() + ")")
+	}
+	wait("openSent")
+	vc.peerSend(wire.Header(wire.TypeOpen, wire.OpenBody(4, 65002, 90, 202, []wire.Cap{{Code: 1, Value: []byte{0, 2, 0, 1}}, {Code: 65, Value: wire.U32(65002)}})))
+	wait("openConfirm")
+	vc.peerSend(wire.Header(wire.TypeKeepalive, nil))
+	wait("established")
+	s.other = vc
 }
 
 // current FSM (the newest one)
@@ -285,6 +327,19 @@ func (s *session) nlris(ns []sessNLRI, v6 bool) []wire.NLRI {
 }
 
 func (s *session) updateBytes(name string, u sessUpd) []byte {
+	if name == "annLoop" { // a well-formed UPDATE whose AS_PATH contains the local AS
+		a := wire.Attr(0x40, wire.AttrOrigin, []byte{0}, false)
+		first := uint32(65001)
+		if s.cfg.IBGP {
+			first = 65010
+		}
+		a = append(a, wire.Attr(0x40, wire.AttrASPath, wire.EncASPath([]wire.Segment{{Type: wire.ASSequence, ASNs: []uint32{first, 65000, 65020}}}, s.asn4), false)...)
+		a = append(a, wire.Attr(0x40, wire.AttrNextHop, []byte{10, 0, 0, 201}, false)...)
+		if s.cfg.IBGP {
+			a = append(a, wire.Attr(0x40, wire.AttrLocalPref, wire.U32(100), false)...)
+		}
+		return wire.Header(wire.TypeUpdate, wire.UpdateBody(nil, a, wire.EncNLRI(s.nlris(u.Announce, false), s.addpath)))
+	}
 	ap := s.addpath
 	ann4, ann6 := s.nlris(u.Announce, false), s.nlris(u.Announce, true)
 	wd4, wd6 := s.nlris(u.Withdraw, false), s.nlris(u.Withdraw, true)
@@ -564,9 +619,9 @@ func (s *session) diff(exp sessState, got sessState, subs []int, malformedEarly 
 	if (exp.St == "OpenConfirm" || exp.St == "Established") && exp.Hold != got.Hold {
 		return "hold-time", "wrong", exp.Hold, got.Hold
 	}
-	// loop detection contribution: the local ASN counts as ours exactly while the session is attached
-	if c := s.vrf.IsContributingASN(65000); c != exp.Attached {
-		return "asn-contribution", "wrong", exp.Attached, c
+	// loop detection contribution: the local ASN counts as ours exactly while a session of the VRF is attached
+	if c := s.vrf.IsContributingASN(65000); c != exp.ASN {
+		return "asn-contribution", "wrong", exp.ASN, c
 	}
 	if s.cfg.RRC == "default" || s.cfg.RRC == "explicit" {
 		cid := uint32(100)
